@@ -250,10 +250,10 @@ pub fn j_offset(form: usize, neg: bool, hh: u32, mm: u32, ss: u32, out: &mut Loc
 pub fn run(rep: &mut Report) {
     let deep = !rep.quick();
     let years10k: i128 = 10_000 * 36_525 * NS_DAY / 100;
-    let mut dl: Vec<i128> = lattice::dl(if deep { 131_072 } else { 1024 }, true);
+    let mut dl: Vec<i128> = lattice::dl(if deep { 131_072 } else { 32_768 }, true);
     // every unit multiple k*U +- 0..3 for more k, both signs (the decomposition/format lattice)
     for u in lattice::UNIT_NS.iter().take(7) {
-        for k in (1..=if deep { 65_536 } else { 512 }).chain([86, 99, 100, 101, 255, 256, 1023, 1024, 4095, 9999, 10_000, 86_399, 86_400, 100_000, 3_652_499]) {
+        for k in (1..=if deep { 65_536 } else { 8_192 }).chain([86, 99, 100, 101, 255, 256, 1023, 1024, 4095, 9999, 10_000, 86_399, 86_400, 100_000, 3_652_499]) {
             for d in -3..=3 {
                 dl.push(k * u + d);
                 dl.push(-(k * u) + d);
